@@ -378,6 +378,7 @@ class Explorer:
         self._want_model = False
         self._last_model = None
         self._consts = {}
+        self._vcount = {}
         self.levels = 0       # solver push levels == decisions of the current path asserted so far
         self.kept_levels = 0  # levels retained from the previous path (shared prefix)
         self.ops = 0          # solver.add operations outside decisions, in path order
@@ -641,7 +642,8 @@ class Explorer:
         v = Violation(message=msg, assignment=self.assignment(m),
                       context={k: _jsonable(val) for k, val in ctx.items()},
                       decisions=[bool(t[0]) for t in self.trail[: self.pos]])
-        if len(self.violations) < 200:
+        c = self._vcount[msg] = self._vcount.get(msg, 0) + 1
+        if c <= 3:
             self.violations.append(v)
         self.stats["violations"] = self.stats.get("violations", 0) + 1
 
